@@ -8,30 +8,33 @@ From GocqlV Require Import Lib.Base C15.Model C15.Spec.
 Set Implicit Arguments.
 
 Section P1.
-Variables (R Q : Type) (q : Q) (auto : bool) (posf : nat -> Z).
+Variables (R M Q : Type) (q : Q) (auto : bool) (posf : nat -> Z) (mm : meta_mode M) (nr : nat).
 
-Notation machT := (mach R Q).
-Notation exec := (exec q auto posf).
-Notation scan_go := (scan_go q auto posf).
-Notation fetch := (fetch q auto posf).
+Notation machT := (mach R M Q).
+Notation exec := (exec q auto posf mm).
+Notation scan_go := (scan_go q auto posf mm nr).
+Notation fetch := (fetch q auto posf mm nr).
+Notation spec_rows := (spec_rows auto mm nr).
+Notation spec_end := (spec_end (R:=R) (M:=M) auto nr).
+Notation spec_states := (spec_states (R:=R) (M:=M) auto nr).
 
 Definition mk (st : list Z) : request Q := mkReq q (wire_ps st).
 
 (* ---- what is still to come --------------------------------------------------------------- *)
-Definition fut_rows_i (it : iter R) (srv : list (reply R)) : list R :=
+Definition fut_rows_i (it : iter R M) (srv : list (reply R M)) : list (drow R M) :=
   match i_err it with
   | Some _ => []
-  | None => skipn (i_pos it) (i_rows it) ++ match i_next it with Some _ => spec_rows auto srv | None => [] end
+  | None => skipn (i_pos it) (i_rows it) ++ match i_next it with Some _ => spec_rows nr srv | None => [] end
   end.
-Definition fut_end_i (it : iter R) (srv : list (reply R)) : option Z :=
+Definition fut_end_i (it : iter R M) (srv : list (reply R M)) : option Z :=
   match i_err it with
   | Some e => Some e
-  | None => match i_next it with Some _ => spec_end auto srv | None => None end
+  | None => match i_next it with Some _ => spec_end nr srv | None => None end
   end.
-Definition fut_states_i (it : iter R) (srv : list (reply R)) : list (list Z) :=
+Definition fut_states_i (it : iter R M) (srv : list (reply R M)) : list (list Z) :=
   match i_err it with
   | Some _ => []
-  | None => match i_next it with Some (st, _) => spec_states auto st srv | None => [] end
+  | None => match i_next it with Some (st, _) => spec_states nr st srv | None => [] end
   end.
 
 Definition fut_rows (m : machT) := fut_rows_i (m_cur m) (m_srv m).
@@ -41,38 +44,38 @@ Definition fut_states (m : machT) := fut_states_i (m_cur m) (m_srv m).
 Definition total (m : machT) : list (request Q) := m_reqs m ++ map mk (fut_states m).
 
 (* ---- executeQuery against the script ------------------------------------------------------ *)
-Lemma exec_spec : forall s ps it s' l, exec ps s = (it, s', l) ->
-  fut_rows_i it s' = spec_rows auto s /\ fut_end_i it s' = spec_end auto s
-  /\ l ++ map mk (fut_states_i it s') = map mk (spec_states auto ps s).
+Lemma exec_spec : forall s ps left it s' l, exec ps left s = (it, s', l) ->
+  fut_rows_i it s' = spec_rows left s /\ fut_end_i it s' = spec_end left s
+  /\ l ++ map mk (fut_states_i it s') = map mk (spec_states left ps s).
 Proof.
-  induction s as [|r s IH]; intros ps it s' l H; cbn [Model.exec] in H.
-  - inversion H; subst. cbn. auto.
-  - destruct r as [rows more st|e| |].
+  induction s as [|r s IH]; intros ps left it s' l H; cbn [Model.exec] in H.
+  - inversion H; subst. cbn. repeat split; auto. rewrite app_nil_r.
+    unfold mk at 1. f_equal. clear. induction left; cbn; [reflexivity|]. unfold mk at 1. congruence.
+  - destruct r as [rows more st mt|e| |].
     + inversion H; subst; clear H. unfold fut_rows_i, fut_end_i, fut_states_i. cbn.
       destruct (more && auto); cbn; auto.
+    + destruct left as [|left'].
+      * inversion H; subst. cbn. auto.
+      * destruct (exec ps left' s) as [[it0 s0] l0] eqn:E. inversion H; subst; clear H.
+        destruct (IH _ _ _ _ _ E) as (A & B & C). cbn [Spec.spec_rows Spec.spec_end Spec.spec_states map].
+        repeat split; auto. cbn [app]. f_equal. exact C.
     + inversion H; subst. cbn. auto.
-    + inversion H; subst. cbn. auto.
-    + destruct (exec ps s) as [[it0 s0] l0] eqn:E. inversion H; subst; clear H.
-      destruct (IH _ _ _ _ E) as (A & B & C). cbn [spec_rows spec_end spec_states map].
+    + destruct (exec ps left s) as [[it0 s0] l0] eqn:E. inversion H; subst; clear H.
+      destruct (IH _ _ _ _ _ E) as (A & B & C). cbn [Spec.spec_rows Spec.spec_end Spec.spec_states map].
       repeat split; auto. cbn [app]. f_equal. exact C.
 Qed.
 
-Lemma exec_srv_length : forall (s : list (reply R)) ps (it : iter R) s' l, exec ps s = (it, s', l) ->
-  (s = [] /\ s' = [] /\ i_err it = Some E_noreply) \/ (length s' < length s)%nat.
+Lemma exec_srv_length : forall (s : list (reply R M)) ps left (it : iter R M) s' l, exec ps left s = (it, s', l) ->
+  (s' = [] /\ i_err it <> None) \/ (length s' < length s)%nat.
 Proof.
-  induction s as [|r s IH]; intros ps it s' l H; cbn [Model.exec] in H.
-  - inversion H; subst. left; auto.
-  - right. destruct r as [rows more st|e| |]; try (inversion H; subst; cbn; lia).
-    destruct (exec ps s) as [[it0 s0] l0] eqn:E. inversion H; subst; clear H.
-    destruct (IH _ _ _ _ E) as [(A & B & _)|A]; subst; cbn in *; lia.
-Qed.
-
-Lemma exec_nonempty : forall (s : list (reply R)) ps (it : iter R) s' l, exec ps s = (it, s', l) -> l <> [].
-Proof.
-  intros s ps it s' l H. destruct s as [|r s]; cbn [Model.exec] in H.
-  - inversion H; discriminate.
-  - destruct r; try (inversion H; discriminate).
-    destruct (exec ps s) as [[it0 s0] l0]. inversion H; discriminate.
+  induction s as [|r s IH]; intros ps left it s' l H; cbn [Model.exec] in H.
+  - inversion H; subst. left. split; [reflexivity|discriminate].
+  - destruct r as [rows more st mt|e| |]; try (right; inversion H; subst; cbn; lia).
+    + destruct left as [|left']; [right; inversion H; subst; cbn; lia|].
+      destruct (exec ps left' s) as [[it0 s0] l0] eqn:E. inversion H; subst; clear H.
+      destruct (IH _ _ _ _ _ E) as [A|A]; [left; exact A|right; cbn; lia].
+    + destruct (exec ps left s) as [[it0 s0] l0] eqn:E. inversion H; subst; clear H.
+      destruct (IH _ _ _ _ _ E) as [A|A]; [left; exact A|right; cbn; lia].
 Qed.
 
 (* ---- fuel ---------------------------------------------------------------------------------- *)
@@ -80,7 +83,7 @@ Definition enough (f : nat) (m : machT) : Prop :=
   (1 <= f)%nat /\ (i_err (m_cur m) = None -> (mu m + 2 <= f)%nat).
 
 Lemma enough_mu m : enough (mu m + 2) m.
-Proof. unfold enough. split; intros; lia. Qed.
+Proof. clear q auto posf mm nr. unfold enough. split; intros; lia. Qed.
 
 (* the state the recursive call of Scan runs in *)
 Lemma enough_switch f m st np :
@@ -90,9 +93,9 @@ Proof.
   intros [_ H] He Hn. specialize (H He). unfold Model.fetch, switch, mu in *.
   destruct (m_fetched m) as [it|] eqn:Ef.
   - rewrite Ef. unfold enough, mu. cbn. split; intros; lia.
-  - rewrite Hn. destruct (exec st (m_srv m)) as [[it s'] l] eqn:E. cbn.
-    unfold enough, mu. cbn. destruct (exec_srv_length _ _ E) as [(A & B & C)|A].
-    + subst. split; [lia|]. intro X. rewrite C in X. discriminate.
+  - rewrite Hn. destruct (exec st nr (m_srv m)) as [[it s'] l] eqn:E. cbn.
+    unfold enough, mu. cbn. destruct (exec_srv_length _ _ _ E) as [(A & C)|A].
+    + subst. split; [lia|]. intro X. congruence.
     + split; intros; lia.
 Qed.
 
@@ -117,7 +120,7 @@ Qed.
 Lemma nth_error_lt {A} (l : list A) n : (n < length l)%nat -> exists x, nth_error l n = Some x.
 Proof. intro H. destruct (nth_error l n) eqn:E; eauto. apply nth_error_None in E. lia. Qed.
 
-Definition step_post (m : machT) (o : option R) (m' : machT) : Prop :=
+Definition step_post (m : machT) (o : option (drow R M)) (m' : machT) : Prop :=
   m_fetched m' = None /\ fut_end m' = fut_end m /\ total m' = total m
   /\ match o with
      | Some r => fut_rows m = r :: fut_rows m'
@@ -137,11 +140,11 @@ Proof.
       destruct (i_next (m_cur m)) as [[st np]|] eqn:Hn.
       * (* page switch *)
         assert (Hen' : enough f (switch (fetch m))) by (eapply enough_switch; eauto).
-        assert (Hsw : exists it s' l, exec st (m_srv m) = (it, s', l)
+        assert (Hsw : exists it s' l, exec st nr (m_srv m) = (it, s', l)
                   /\ switch (fetch m) = mkMach it false None s' (m_reqs m ++ l)).
-        { unfold Model.fetch, switch. rewrite Hf, Hn. destruct (exec st (m_srv m)) as [[it s'] l]. cbn. eauto. }
+        { unfold Model.fetch, switch. rewrite Hf, Hn. destruct (exec st nr (m_srv m)) as [[it s'] l]. cbn. eauto. }
         destruct Hsw as (it & s' & l & E & Esw). rewrite Esw in *.
-        destruct (exec_spec _ _ E) as (A & B & C).
+        destruct (exec_spec _ _ _ E) as (A & B & C).
         specialize (IH (mkMach it false None s' (m_reqs m ++ l)) o m' eq_refl Hen' H). unfold step_post in IH.
         destruct IH as (I1 & I2 & I3 & I4).
         assert (Xr : fut_rows m = fut_rows (mkMach it false None s' (m_reqs m ++ l))).
@@ -171,11 +174,11 @@ Proof.
 Qed.
 
 (* the three per-call consumer functions are scan_go with enough fuel *)
-Definition scanp (pre : bool) (m : machT) : option R * machT := scan_go pre (mu m + 2) m.
+Definition scanp (pre : bool) (m : machT) : option (drow R M) * machT := scan_go pre (mu m + 2) m.
 
-Lemma scan_scanp (m : machT) : scan q auto posf m = scanp true m. Proof. reflexivity. Qed.
-Lemma next_scanp (m : machT) : next q auto posf m = scanp false m. Proof. reflexivity. Qed.
-Lemma map_scan_scan (m : machT) : map_scan q auto posf m = scan q auto posf m.
+Lemma scan_scanp (m : machT) : scan q auto posf mm nr m = scanp true m. Proof. reflexivity. Qed.
+Lemma next_scanp (m : machT) : next q auto posf mm nr m = scanp false m. Proof. reflexivity. Qed.
+Lemma map_scan_scan (m : machT) : map_scan q auto posf mm nr m = scan q auto posf mm nr m.
 Proof.
   unfold map_scan, scan. destruct (i_err (m_cur m)) eqn:He; [|reflexivity].
   replace (mu m + 2)%nat with (S (mu m + 1)) by lia. cbn [Model.scan_go]. rewrite He. reflexivity.
@@ -212,20 +215,20 @@ Proof.
 Qed.
 
 (* ---- from the opened query ---------------------------------------------------------------------- *)
-Lemma open_spec ps s : let m := open q auto posf ps s in
-  m_fetched m = None /\ m_oncea m = false /\ fut_rows m = spec_rows auto s /\ fut_end m = spec_end auto s
-  /\ total m = map mk (spec_states auto ps s).
+Lemma open_spec ps s : let m := open q auto posf mm nr ps s in
+  m_fetched m = None /\ m_oncea m = false /\ fut_rows m = spec_rows nr s /\ fut_end m = spec_end nr s
+  /\ total m = map mk (spec_states nr ps s).
 Proof.
-  unfold open. destruct (exec ps s) as [[it s'] l] eqn:E. cbn.
-  destruct (exec_spec _ _ E) as (A & B & C). unfold fut_rows, fut_end, total, fut_states. cbn. auto.
+  unfold open. destruct (exec ps nr s) as [[it s'] l] eqn:E. cbn.
+  destruct (exec_spec _ _ _ E) as (A & B & C). unfold fut_rows, fut_end, total, fut_states. cbn. auto.
 Qed.
 
 Theorem calls_open pre ps s k outs m' :
-  calls (scanp pre) k (open q auto posf ps s) = (outs, m') ->
-  outs = map Some (firstn k (spec_rows auto s)) ++ repeat None (k - length (spec_rows auto s))
-  /\ (exists tl, map mk (spec_states auto ps s) = m_reqs m' ++ tl)
-  /\ ((length (spec_rows auto s) < k)%nat ->
-      close m' = spec_end auto s /\ m_reqs m' = map mk (spec_states auto ps s)).
+  calls (scanp pre) k (open q auto posf mm nr ps s) = (outs, m') ->
+  outs = map Some (firstn k (spec_rows nr s)) ++ repeat None (k - length (spec_rows nr s))
+  /\ (exists tl, map mk (spec_states nr ps s) = m_reqs m' ++ tl)
+  /\ ((length (spec_rows nr s) < k)%nat ->
+      close m' = spec_end nr s /\ m_reqs m' = map mk (spec_states nr ps s)).
 Proof.
   intro H. destruct (open_spec ps s) as (O1 & _ & O3 & O4 & O5).
   destruct (calls_spec _ _ _ O1 H) as (I1 & I2 & I3 & I4 & I5 & I6).
